@@ -427,4 +427,105 @@ example : KinkComplete (kinksH 1 3 1) [0, 1, 2, 3, 4] := by
 
 example : midpointRule (elemH (1/4) 1 3 1) [0, 1, 2, 3, 4] = asymHuber (1/4) 1 3 1 := by decide +kernel
 
+/-! ## 6. The returned thetas are a kink-complete grid: integrating over them is exact -/
+section capstone
+open SV.Model.Murphy (quantileThetas huberThetas expectileThetas)
+
+/-- capstone, quantile: the midpoint rule over the thetas RETURNED by murphy_thetas (any number of sources, NaNs anywhere)
+    integrates every case's elementary score exactly to its pinball loss -/
+theorem integral_over_thetas_quantile (α : Rat) (F : List (List Fl)) (O : List Fl) (s : List Fl) (hs : s ∈ F) (f o : Rat)
+    (hf : Fl.fin f ∈ s) (ho : Fl.fin o ∈ O) (p : Rat) (g : List Rat) (hg : toRats (quantileThetas F O) = p :: g) :
+    midpointRule (elemQ α f o) (p :: g) = pinball α f o := by
+  have hsorted : (p :: g).Pairwise (· < ·) := hg ▸ toRats_pairwise _ (quantile_thetas_sorted F O)
+  have hmem : ∀ k ∈ kinksQ f o, k ∈ p :: g := fun k hk =>
+    hg ▸ (mem_toRats k _).mpr (kinks_subset_thetas_quantile F O s hs f o hf ho k hk)
+  have hf' := hmem f (by simp [kinksQ]); have ho' := hmem o (by simp [kinksQ])
+  exact integral_quantile α f o g p (kinkComplete_of_sorted _ _ hsorted (fun k hk => Or.inl (hmem k hk)))
+    ⟨head_le_of_sorted p g hsorted f hf', head_le_of_sorted p g hsorted o ho'⟩
+    ⟨le_lastOr_of_sorted g p hsorted f hf', le_lastOr_of_sorted g p hsorted o ho'⟩
+
+theorem integral_over_thetas_expectile (α d : Rat) (F : List (List Fl)) (O : List Fl) (s : List Fl) (hs : s ∈ F) (f o : Rat)
+    (hf : Fl.fin f ∈ s) (ho : Fl.fin o ∈ O) (p : Rat) (g : List Rat)
+    (hg : toRats (expectileThetas F O (Fl.fin d)) = p :: g) :
+    midpointRule (elemE α f o) (p :: g) = halfAsymSq α f o := by
+  have hsorted : (p :: g).Pairwise (· < ·) := hg ▸ toRats_pairwise _ (expectile_thetas_sorted F O _)
+  have hmem : ∀ k ∈ kinksE f o, k ∈ p :: g := fun k hk =>
+    hg ▸ (mem_toRats k _).mpr ((kinks_subset_thetas_expectile F O d s hs f o hf ho).1 k hk)
+  have hf' := hmem f (by simp [kinksE]); have ho' := hmem o (by simp [kinksE])
+  exact integral_expectile α f o g p (kinkComplete_of_sorted _ _ hsorted (fun k hk => Or.inl (hmem k hk)))
+    ⟨head_le_of_sorted p g hsorted f hf', head_le_of_sorted p g hsorted o ho'⟩
+    ⟨le_lastOr_of_sorted g p hsorted f hf', le_lastOr_of_sorted g p hsorted o ho'⟩
+
+theorem integral_over_thetas_huber (α a d : Rat) (ha : 0 ≤ a) (F : List (List Fl)) (O : List Fl) (s : List Fl) (hs : s ∈ F)
+    (f o : Rat) (hf : Fl.fin f ∈ s) (ho : Fl.fin o ∈ O) (p : Rat) (g : List Rat)
+    (hg : toRats (huberThetas F O (Fl.fin a) (Fl.fin d)) = p :: g) :
+    midpointRule (elemH α a f o) (p :: g) = asymHuber α a f o := by
+  have hsorted : (p :: g).Pairwise (· < ·) := hg ▸ toRats_pairwise _ (huber_thetas_sorted F O _ _)
+  have hmem : ∀ k ∈ kinksH a f o, k ∈ p :: g := fun k hk =>
+    hg ▸ (mem_toRats k _).mpr ((kinks_subset_thetas_huber F O a d s hs f o hf ho).1 k hk)
+  have hf' := hmem f (by simp [kinksH]); have ho' := hmem o (by simp [kinksH])
+  exact integral_huber α a f o ha g p (kinkComplete_of_sorted _ _ hsorted (fun k hk => Or.inl (hmem k hk)))
+    ⟨head_le_of_sorted p g hsorted f hf', head_le_of_sorted p g hsorted o ho'⟩
+    ⟨le_lastOr_of_sorted g p hsorted f hf', le_lastOr_of_sorted g p hsorted o ho'⟩
+
+example : toRats (quantileThetas [[Fl.fin 3, Fl.nan], [Fl.fin 2]] [Fl.fin 1, Fl.fin 3]) = [1, 2, 3] := by decide +kernel
+
+
+end capstone
+
+/-! ## 7. Mean over cases with NaN matching: `mean(dim=…)` (skipna) of the three outputs is the mean elementary score over
+    the cases whose forecast and observation are both present, NaN when there is none -/
+section means
+open SV.Fl
+open SV.Model.Murphy (meanCell)
+
+/-- quantile -/
+theorem mean_eq_spec_quantile (α θ : Rat) (a : Fl) (cases : List (Fl × Fl)) (hok : ∀ c ∈ cases, CaseOK c) :
+    let m := meanCell .quantile (fin α) a cases (fin θ)
+    (m.total, m.under, m.over) = meanScore .quantile α 0 cases (fin θ) := by
+  have hn : ∀ c : Fl × Fl, (c.1 = nan ∨ c.2 = nan) → cell .quantile (fin α) a c.1 c.2 (fin θ) = ⟨nan, nan, nan⟩ :=
+    fun c h => cell_nan _ _ _ _ _ _ (by rcases h with h | h; exact Or.inl h; exact Or.inr (Or.inl h))
+  simp only [meanCell, meanScore, List.map_map]
+  refine Prod.ext ?_ (Prod.ext ?_ ?_)
+  · exact nanmean_cases (fun c => (cell .quantile (fin α) a c.1 c.2 (fin θ)).total) (fun f o => elemQ α f o θ)
+      (fun c h => by simp only [hn c h]) (fun f o => by simp only [quantile_cell_eq_spec]) cases hok
+  · exact nanmean_cases (fun c => (cell .quantile (fin α) a c.1 c.2 (fin θ)).under) (fun f o => underQ α f o θ)
+      (fun c h => by simp only [hn c h]) (fun f o => by simp only [quantile_cell_eq_spec]) cases hok
+  · exact nanmean_cases (fun c => (cell .quantile (fin α) a c.1 c.2 (fin θ)).over) (fun f o => overQ α f o θ)
+      (fun c h => by simp only [hn c h]) (fun f o => by simp only [quantile_cell_eq_spec]) cases hok
+
+/-- expectile -/
+theorem mean_eq_spec_expectile (α θ : Rat) (a : Fl) (cases : List (Fl × Fl)) (hok : ∀ c ∈ cases, CaseOK c) :
+    let m := meanCell .expectile (fin α) a cases (fin θ)
+    (m.total, m.under, m.over) = meanScore .expectile α 0 cases (fin θ) := by
+  have hn : ∀ c : Fl × Fl, (c.1 = nan ∨ c.2 = nan) → cell .expectile (fin α) a c.1 c.2 (fin θ) = ⟨nan, nan, nan⟩ :=
+    fun c h => cell_nan _ _ _ _ _ _ (by rcases h with h | h; exact Or.inl h; exact Or.inr (Or.inl h))
+  simp only [meanCell, meanScore, List.map_map]
+  refine Prod.ext ?_ (Prod.ext ?_ ?_)
+  · exact nanmean_cases (fun c => (cell .expectile (fin α) a c.1 c.2 (fin θ)).total) (fun f o => elemE α f o θ)
+      (fun c h => by simp only [hn c h]) (fun f o => by simp only [expectile_cell_eq_spec]) cases hok
+  · exact nanmean_cases (fun c => (cell .expectile (fin α) a c.1 c.2 (fin θ)).under) (fun f o => underE α f o θ)
+      (fun c h => by simp only [hn c h]) (fun f o => by simp only [expectile_cell_eq_spec]) cases hok
+  · exact nanmean_cases (fun c => (cell .expectile (fin α) a c.1 c.2 (fin θ)).over) (fun f o => overE α f o θ)
+      (fun c h => by simp only [hn c h]) (fun f o => by simp only [expectile_cell_eq_spec]) cases hok
+
+/-- Huber -/
+theorem mean_eq_spec_huber (α a θ : Rat) (cases : List (Fl × Fl)) (hok : ∀ c ∈ cases, CaseOK c) :
+    let m := meanCell .huber (fin α) (fin a) cases (fin θ)
+    (m.total, m.under, m.over) = meanScore .huber α a cases (fin θ) := by
+  have hn : ∀ c : Fl × Fl, (c.1 = nan ∨ c.2 = nan) → cell .huber (fin α) (fin a) c.1 c.2 (fin θ) = ⟨nan, nan, nan⟩ :=
+    fun c h => cell_nan _ _ _ _ _ _ (by rcases h with h | h; exact Or.inl h; exact Or.inr (Or.inl h))
+  simp only [meanCell, meanScore, List.map_map]
+  refine Prod.ext ?_ (Prod.ext ?_ ?_)
+  · exact nanmean_cases (fun c => (cell .huber (fin α) (fin a) c.1 c.2 (fin θ)).total) (fun f o => elemH α a f o θ)
+      (fun c h => by simp only [hn c h]) (fun f o => by simp only [huber_cell_eq_spec]) cases hok
+  · exact nanmean_cases (fun c => (cell .huber (fin α) (fin a) c.1 c.2 (fin θ)).under) (fun f o => underH α a f o θ)
+      (fun c h => by simp only [hn c h]) (fun f o => by simp only [huber_cell_eq_spec]) cases hok
+  · exact nanmean_cases (fun c => (cell .huber (fin α) (fin a) c.1 c.2 (fin θ)).over) (fun f o => overH α a f o θ)
+      (fun c h => by simp only [hn c h]) (fun f o => by simp only [huber_cell_eq_spec]) cases hok
+
+example : CaseOK (nan, fin 1) ∧ CaseOK (fin 2, fin 1) := ⟨Or.inl (Or.inl rfl), Or.inr ⟨2, 1, rfl⟩⟩
+
+end means
+
 end SV.Props.C11
